@@ -14,6 +14,7 @@
 -/
 import RSVerif.Proofs.CauchyEnc
 import RSVerif.Properties.C13
+import RSVerif.Proofs.FlatEndToEnd
 
 namespace RS
 
@@ -53,6 +54,26 @@ theorem encode_pure {L : Nat} (s s' : Sched) (k r : Nat) (mem mem' : Array (Vect
     rw [encodeHigh_eq_cauchy s k r h mem h1 hj, encodeHigh_eq_cauchy s' k r h mem' h2 hj, hdata]
   · intro h h1 h2
     rw [encodeLow_eq_cauchy s k r h mem h1 hj, encodeLow_eq_cauchy s' k r h mem' h2 hj, hdata]
+
+/-- the same on the REAL memory: `HighRateEncoder::encode` / `LowRateEncoder::encode` transliterated on the
+    flat `Vec<[u8; 64]>` (index arithmetic, `dist2_mut` / `dist4_mut` / `split_at_mut` views, `zero`,
+    `copy_within`, `xor_within`, byte-level xor and multiply; Model/Flat.lean, Model/FlatEngine.lean)
+    never panic and leave, in every one of the `32·len64` symbol lanes of recovery shard `j`, the
+    closed-form code word `Σ_i G[j][i]·original_i` — for both engine families (`s`) -/
+theorem flat_encode_is_cauchy (s : Sched) (f : Flat) (k r : Nat) (hwf : f.WF) (hn : 0 < f.len64)
+    (j : Nat) (hj : j < r) :
+    (supportsHigh k r = true → f.count = highEncWorkCount k r →
+      ∃ f', flatEncodeHigh s f k r = some f' ∧ f'.WF ∧
+        f'.lanesAt f.len64 j =
+          (cauchyEncode .high k r ((f.absV.map (bvecLanes f.len64)).extract 0 k)).getD j
+            (Vector.replicate (32 * f.len64) 0#16)) ∧
+    (supportsLow k r = true → f.count = lowEncWorkCount k r →
+      ∃ f', flatEncodeLow s f k r = some f' ∧ f'.WF ∧
+        f'.lanesAt f.len64 j =
+          (cauchyEncode .low k r ((f.absV.map (bvecLanes f.len64)).extract 0 k)).getD j
+            (Vector.replicate (32 * f.len64) 0#16)) :=
+  ⟨fun hs hc => flatEncodeHigh_eq_cauchy s f k r hs hc hwf hn j hj,
+   fun hs hc => flatEncodeLow_eq_cauchy s f k r hs hc hwf hn j hj⟩
 
 /-- non-vacuity / sanity: (k, r) = (2, 3) is low rate with m = 2; the first matrix entry evaluated
     by the kernel from the closed form -/
